@@ -215,6 +215,23 @@ pub fn space(thorough: bool) -> Vec<Prog> {
         }
         out.push(build(specs, "wide|70".to_string()));
     }
+    // counts: N overrides without a default (plus one with), around the powers of two and between them
+    for n in [7usize, 8, 9, 15, 16, 17, 31, 32, 33, 40, 63, 64, 65, 100, 129] {
+        let mut specs = vec![];
+        for i in 0..n {
+            let mut sp = s[(i * 5) % s.len()].clone();
+            sp.name = format!("req_ov_{i}");
+            sp.default = ODefault::None;
+            sp.id = if i % 4 == 1 { Some(2000 + i as u32) } else { None };
+            specs.push(sp);
+        }
+        let mut opt = s[1].clone();
+        opt.name = "opt_ov_last".into();
+        opt.default = ODefault::Literal;
+        opt.id = None;
+        specs.push(opt);
+        out.push(build(specs, format!("count|required={n}")));
+    }
     // pairs: all ordered pairs in thorough, a diagonal band in quick
     for (i, a) in s.iter().enumerate() {
         for (j, b) in s.iter().enumerate() {
